@@ -2,6 +2,11 @@ mod transformer;
 
 use serde::{Deserialize, Serialize};
 use std::collections::HashMap;
+#[cfg(redirectionio_verif_shuttle)]
+use shuttle::sync::RwLock;
+#[cfg(redirectionio_verif_shuttle)]
+use std::sync::Arc;
+#[cfg(not(redirectionio_verif_shuttle))]
 use std::sync::{Arc, RwLock};
 
 use crate::regex::LazyRegex;
